@@ -152,6 +152,10 @@ func main() {
 			"max_depth":                     tot.MaxDepth,
 			"distinct_visible_traces":       visibles,
 			"capped_scenarios":              capped,
+			"preemption_bounded_scenarios":  pr.boundedN,
+			"preemption_bounded_executions": pr.boundedExecs,
+			"preemption_bounded_capped":     pr.boundedCapped,
+			"preemption_bounded_note":       "scenarios marked 'supplement' are too large for all interleavings with more than one worker. They are explored over all interleavings with one worker (that run is what the exhaustive flag covers) and, as a supplement, with their own N depth-first over the schedules with fewer than B preemptions, stopping after 12000 schedules (preemption_bounded_capped counts the ones stopped). The supplement is never counted as exhaustive",
 			"known_findings_hit":            rep.KnownHits,
 			"race_detector":                 pr.race,
 			"race_reports_confirmed":        racesConfirmed,
@@ -236,6 +240,9 @@ type planResult struct {
 	tot              statsRec
 	exhaustive       bool
 	capped           []string
+	boundedN         int   // scenarios explored completely below a preemption bound (too large for all interleavings)
+	boundedExecs     int64
+	boundedCapped    int
 	visibles         int
 	samples          []any
 	outcomes         map[string][]string // "program key :: scenario" -> distinct observable outcomes over all schedules
@@ -319,6 +326,7 @@ func execPlan(prop, tier string, pl *plan, gm genMode, sub string, tasks []genrt
 	racesConfirmed, racesUnconfirmed := 0, 0
 	exhaustive := true
 	var capped []string
+	boundedN, boundedExecs, boundedCapped := 0, int64(0), 0
 	visibles := 0
 	var samples []any
 	outcomesByProg := map[string]map[string]bool{}
@@ -337,7 +345,14 @@ func execPlan(prop, tier string, pl *plan, gm genMode, sub string, tasks []genrt
 			tot.MaxDepth = r.Stats.MaxDepth
 		}
 		visibles += r.Visibles
-		if !r.Stats.Exhaustive && len(r.Violations) == 0 {
+		if strings.Contains(r.Scenario, " supplement") {
+			// a several-worker supplement of a scenario that is explored over all interleavings with one worker
+			boundedN++
+			boundedExecs += r.Stats.Execs
+			if !r.Stats.Exhaustive {
+				boundedCapped++
+			}
+		} else if !r.Stats.Exhaustive && len(r.Violations) == 0 {
 			exhaustive = false
 			capped = append(capped, fmt.Sprintf("%s [%s] (%s after %d executions)", r.Scenario, progKey(p), r.Stats.CappedBy, r.Stats.Execs))
 		}
@@ -380,6 +395,7 @@ func execPlan(prop, tier string, pl *plan, gm genMode, sub string, tasks []genrt
 		}
 	}
 	pr.tot, pr.exhaustive, pr.capped, pr.visibles, pr.samples = tot, exhaustive, capped, visibles, samples
+	pr.boundedN, pr.boundedExecs, pr.boundedCapped = boundedN, boundedExecs, boundedCapped
 	pr.rejected, pr.broken, pr.scenarios, pr.racesConfirmed, pr.race = rejected, len(g.broken), len(run), racesConfirmed, g.race
 	pr.racesUnconfirmed = racesUnconfirmed
 	pr.results, pr.runProg = results, runProg
